@@ -151,3 +151,16 @@ ADDENDA2 = {
 for _pid, _txt in ADDENDA2.items():
     if _pid in PROPS:
         PROPS[_pid]["explanation"] += _txt
+
+ADDENDA3 = {
+    "C02": " C02.9 identifier tokens are period-joined sequences of core.identifier components (automata inclusion).",
+    "C04": " C04.10 expand_macros converts RecursionError (recursion cycles of the call graph).",
+    "C05": " C05.11 overriding values are finite.",
+    "C10": " C10.1 decides the parser's pass selection and order by simulating the flag tests over all 8 flag assignments; C10.12 the passes convert RecursionError; C10.13 alias fill-in exempts whole-register arguments of macro calls.",
+    "C13": " C13.5 also covers range(resolve_size()).",
+    "C14": " C14.4 also requires that every argument of a macro call is checked before substitution can drop it, and C14.1 that lower and upper bound tests are alternatives with the right strictness.",
+    "C16": " C16.21 len(range(..)) over program bounds, gate-table look-ups and file-system probes are converted to JaqalError/ImportError.",
+}
+for _pid, _txt in ADDENDA3.items():
+    if _pid in PROPS:
+        PROPS[_pid]["explanation"] += _txt
